@@ -31,6 +31,9 @@ TRUSTED = ['MIDI field widths: numerator/controller/value/pitch/velocity/program
            'pretty_midi attribute names (verified against the installed source each run)']
 NOT_DECIDED = ['what pretty_midi / mido raise or return for arbitrary bytes (caught wholesale)', 'non-negativity of times delivered by pretty_midi']
 ASSUMPTIONS = ['a PrettyMIDI object passed in directly by the caller is well-typed']
+# rules whose verdict does not depend on how the statements are arranged (semantic analyses); all other rules are shape rules:
+# when one of those fails in a function that was restructured relative to reference/signatures.json the verdict is "cannot decide"
+ROBUST = ('ESC/wrapper', 'ESC/exception-class', 'CTOR', 'PMFACTS')
 FLOORS = {'ESC': 40, 'CTOR': 2, 'PAIR': 2, 'COPY': 10, 'PMFACTS': 7}
 
 ALLOWED = {'MIDIConversionError'}
